@@ -104,7 +104,8 @@ class Machine(object):
 
     def step(self, ev, check=True):
         """ev = (universe tuple, alpha items tuple, table)"""
-        uni, alpha_items, table = ev
+        uni, alpha_items, table = ev[:3]
+        hold = len(ev) > 3 and ev[3] == 'hold'      # the orders of this round stay queued: no open before the next round
         fails = []
         i = self.round
         dt, dt_open = CLOSES[i], OPENS[i]
@@ -113,6 +114,7 @@ class Machine(object):
         self.stub.alpha = {self.nm(a): w for a, w in alpha_items}
         self.broker.update(dt)
         held = self.held()
+        queued_before = len(list(self.broker.open_orders['p'].queue))
         S = sorted(set(uni) | set(held) | set(self.stub.alpha))
         wv = {a: self.stub.alpha.get(a, 0.0) for a in S}
         try:
@@ -141,10 +143,13 @@ class Machine(object):
         for o in orders:
             self.broker.submit_order('p', o)
             self.broker.update(dt)
-        self.broker.update(dt_open)
+        if not hold:
+            self.broker.update(dt_open)
         after = self.held()
         want_after = {a: q for a, q in target.items() if q != 0}
-        if check and not fails and after != want_after:
+        # (orders of an earlier round that were still queued fill together with this round's: the statement speaks of
+        # "those orders", so holdings are compared only when nothing else was waiting and this round's orders filled)
+        if check and not fails and not hold and not queued_before and after != want_after:
             fails.append({'clause': 'C09.holdings_after_fills', 'detail': {'holdings': after, 'target': want_after,
                                                                            'held_before': held}})
         self.round += 1
@@ -155,8 +160,9 @@ class Machine(object):
         return fails
 
     def canon(self):
+        queued = tuple((o.asset, int(o.quantity)) for o in list(self.broker.open_orders['p'].queue))
         return digest((self.round, tuple(sorted(self.held().items())),
-                       round(self.broker.get_portfolio_cash_balance('p'), 6)))
+                       round(self.broker.get_portfolio_cash_balance('p'), 6), queued))
 
 
 class Spec(object):
@@ -165,7 +171,7 @@ class Spec(object):
 
     def case(self, hist):
         return {'sizer': self.sizer_kind, 'fee': list(self.fee), 'preset': self.preset,
-                'history': [[list(e[0]), [list(x) for x in e[1]], e[2]] for e in hist]}
+                'history': [[list(e[0]), [list(x) for x in e[1]], e[2]] + list(e[3:]) for e in hist]}
 
     def build(self, hist):
         m = Machine(self.sizer_kind, self.fee, self.preset)
@@ -236,6 +242,17 @@ def run(tier, res, is_known):
         bfs(spec, 2, res, is_known, label='%s, numpy-string symbols' % sizer_kind, recheck=4)
         if any(not is_known(v) for v in res.violations):
             return
+    # a rebalance whose orders are still queued when the next one is constructed (closed exchange in between: a
+    # Friday-night and a Saturday rebalance, or two closes without the open): orders are target minus HELD all the same
+    for sizer_kind in ('long_only', 'long_short'):
+        sm = menus(sizer_kind, 'quick')[1]
+        held_menu = [e + ('hold',) for e in sm]
+        for preset in ('empty', 'long_AB'):
+            spec = Spec(sizer_kind, ('zero',), preset, [held_menu, sm] if tier == 'quick' else [held_menu, held_menu[::2], sm[::2]])
+            bfs(spec, 2 if tier == 'quick' else 3, res, is_known, label='%s preset=%s, orders still queued at the next rebalance' % (
+                sizer_kind, preset), recheck=4)
+            if any(not is_known(v) for v in res.violations):
+                return
     for sizer_kind in ('long_only', 'long_short'):
         wm = wide_menus(sizer_kind)
         if tier == 'quick':
@@ -276,6 +293,6 @@ def large_menus(sizer_kind):
 
 
 def replay(case):
-    hist = tuple((tuple(e[0]), tuple(tuple(x) for x in e[1]), e[2]) for e in case['history'])
+    hist = tuple((tuple(e[0]), tuple(tuple(x) for x in e[1]), e[2]) + tuple(e[3:]) for e in case['history'])
     spec = Spec(case['sizer'], case['fee'], case['preset'], None)
     return spec.build(hist)[1]
